@@ -86,8 +86,13 @@ def run (args : List String) : String :=
       let r := fromWire (toWire c.rel).1 (toWire c.rel).2
       let strs := got.map showMsg
       let strs := if c.rel.ordered then strs else (strs.toArray.qsort (· < ·)).toList
+      -- a partially reliable channel (maxRetransmits / maxPacketLifeTime set) may abandon a message whenever a
+      -- retransmission timer fires (a loaded machine is enough): which messages arrive is not predicted (`*`,
+      -- matched against anything by bin/check); the judge still forbids duplicates and foreign messages there
+      let partialRel := c.rel.maxRetransmits.isSome || c.rel.maxPacketLifeTime.isSome
       String.intercalate " " (["ch", c.label, c.proto, Wire.boolTok r.ordered, showOpt r.maxRetransmits,
-        showOpt r.maxPacketLifeTime, Wire.boolTok c.negotiated, "recv", toString got.length] ++ strs
+        showOpt r.maxPacketLifeTime, Wire.boolTok c.negotiated, "recv"]
+        ++ (if partialRel then ["*"] else toString got.length :: strs)
         ++ [if ok then "open" else "closed"]))
     String.intercalate " " (perChan ++ ["senderr"] ++ rejected.map (fun (k, _) => toString k))
 
@@ -106,6 +111,13 @@ def triples : List String → List String
   | _ => []
 
 def count (l : List String) (x : String) : Nat := (l.filter (· == x)).length
+
+/-- `got` is `sent` with some elements left out, order kept (equal lists for a reliable channel, where
+    nothing is left out) -/
+def isSubseq : List String → List String → Bool
+  | [], _ => true
+  | _ :: _, [] => false
+  | g :: gs, s :: ss => if g == s then isSubseq gs ss else isSubseq (g :: gs) ss
 
 def judge (args out : List String) : String :=
   match out with
@@ -137,8 +149,10 @@ def judge (args out : List String) : String :=
             |>.map (fun (_, s) => showMsg { data := s.data, isString := s.isString })
           if got.any (fun g => count got g > count sent g) then
             (if got.any (fun g => count sent g == 0) then "violated message-corrupted-or-spurious" else "violated message-duplicated")
-          else if sent.any (fun g => count got g < count sent g) then "violated message-lost"
-          else if c.rel.ordered && got != sent then "violated message-reordered"
+          -- the property promises delivery of every message for RELIABLE channels only
+          else if c.rel.maxRetransmits.isNone && c.rel.maxPacketLifeTime.isNone
+              && sent.any (fun g => count got g < count sent g) then "violated message-lost"
+          else if c.rel.ordered && !isSubseq got sent then "violated message-reordered"
           else "ok"
       | _, _ => "bad-judge")
     match verdicts.find? (· != "ok") with
